@@ -695,9 +695,9 @@ def runCmd (c : Ctx) (s : State) (conn : Nat) (ref : Nat) (inMulti : Bool) : Cmd
       let ses := s.session conn
       let db := s.getDb ref
       let ids := ks.map fun k => (ref, k, match db.live c.now k with | some e => e.id | none => 0)
-      -- the Go map keeps one entry per (db, key): later WATCH of the same key overwrites
+      -- one entry per (db, key); a key that is watched already keeps the version of its first WATCH
       let ws := ids.foldl (fun acc (w : Nat × Bytes × Nat) =>
-        (acc.filter fun (x : Nat × Bytes × Nat) => !(x.1 == w.1 && x.2.1 == w.2.1)) ++ [w]) ses.watches
+        if acc.any (fun (x : Nat × Bytes × Nat) => x.1 == w.1 && x.2.1 == w.2.1) then acc else acc ++ [w]) ses.watches
       { st := s.setSession conn { ses with watches := ws }, reply := vOK }
   | .unwatch =>
       let ses := s.session conn
@@ -734,24 +734,31 @@ def downIf (resp : Int) (_c : Ctx) (v : Value) : Value :=
   if resp == 2 then down v else v
 
 /-- run the queued commands of EXEC in order -/
-def execQueue (c : Ctx) (conn : Nat) : List Queued → State → List Value → List Match → List (Nat × Bytes × Nat) →
+def execQueue (c : Ctx) (conn : Nat) : List Queued → List Value → State → List Value → List Match → List (Nat × Bytes × Nat) →
     State × List Value × List Match × List (Nat × Bytes × Nat) × Option String
-  | [], s, vs, hs, ps => (s, vs.reverse, hs.reverse, ps, none)
-  | q :: r, s, vs, hs, ps =>
+  | [], _, s, vs, hs, ps => (s, vs.reverse, hs.reverse, ps, none)
+  | q :: r, impls, s, vs, hs, ps =>
     match q.argv with
-    | [] => execQueue c conn r s vs hs ps
+    | [] => execQueue c conn r impls s vs hs ps
     | name :: args =>
       match parseCmd name args with
-      | none => execQueue c conn r s (errArity name :: vs) (.exact :: hs) ps
+      | none => execQueue c conn r impls.tail s (errArity name :: vs) (.exact :: hs) ps
       | some cmd =>
-        -- the implementation reads its clock again for every queued command
-        let c := { c with now := c.now + 1000 }
+        -- the implementation reads its clock again for every queued command; `impls` are the
+        -- elements of the implementation's EXEC reply (the float commands adopt their text)
+        let c := { c with now := c.now + 1000, impl := impls.head? }
         let o := runCmd c s conn q.dbRef true cmd
         match o.crash with
         | some site => (o.st, vs.reverse, hs.reverse, ps, some site)
         | none =>
           let resp := (o.st.session conn).resp
-          execQueue c conn r o.st (downIf resp c o.reply :: vs) ((if o.judged then o.hint else .custom "any") :: hs) (ps ++ o.pushed)
+          execQueue c conn r impls.tail o.st (downIf resp c o.reply :: vs) ((if o.judged then o.hint else .custom "any") :: hs) (ps ++ o.pushed)
+
+/-- the elements of the implementation's reply to EXEC, when it is an array -/
+def implElems (c : Ctx) : List Value :=
+  match c.impl with
+  | some (.array xs) => xs
+  | _ => []
 
 def Cmd.isControl : Cmd → Bool
   | .multi | .exec | .discard | .watch _ => true
@@ -775,7 +782,7 @@ def dispatchParsed (c : Ctx) (s : State) (conn : Nat) (argv : List Bytes) (cmd :
           if c.q.abortedExecStaysMulti then { st := s, reply := .nil }
           else { st := s.setSession conn { ses with queue := none, watches := [] }, reply := .nil }
         else
-          let (s1, vs, hs, ps, crash) := execQueue c conn q s [] [] []
+          let (s1, vs, hs, ps, crash) := execQueue c conn q (implElems c) s [] [] []
           let ses1 := s1.session conn
           -- a handler that panics unwinds `fnExec` before the queue is dropped: the effects of the
           -- commands already executed stay, and so do the queue and the watches
@@ -809,8 +816,19 @@ def dispatch (c : Ctx) (s : State) (conn : Nat) (argv : List Bytes) : Out :=
     else
     match parseCmd name args with
     | none =>
-      let ses' := if ses.queue.isSome && !c.q.queueErrorNoAbort then { ses with queueErr := true } else ses
-      { st := s.setSession conn ses', reply := errArity name }
+      -- The arguments are wrong. Inside MULTI Redis refuses some of these while queueing (arity:
+      -- EXEC will abort) and queues others (option syntax: the error is the command's reply in
+      -- EXEC). The model does not tell the two kinds apart and follows what the implementation did.
+      match ses.queue, c.impl with
+      | some q, some (.simple w) =>
+        if w == sb "QUEUED" then
+          { st := s.setSession conn { ses with queue := some (q ++ [{ argv := argv, dbRef := ses.dbRef }]) },
+            reply := .simple (sb "QUEUED") }
+        else
+          { st := s.setSession conn (if !c.q.queueErrorNoAbort then { ses with queueErr := true } else ses), reply := errArity name }
+      | _, _ =>
+        let ses' := if ses.queue.isSome && !c.q.queueErrorNoAbort then { ses with queueErr := true } else ses
+        { st := s.setSession conn ses', reply := errArity name }
     | some (.opaque _) => { st := s, reply := .nil, judged := false }   -- handled by the emulator, not modelled
     | some cmd => dispatchParsed c s conn argv cmd
 
